@@ -75,7 +75,7 @@ theorem fwrite_buffered (f : FuseW) (w : World) (data : Bytes) (hb : f.buffered 
   have hw : f.base + f.len + data.length ≤ (w.mem.get f.region).length := by omega
   unfold FuseW.write
   simp only [hc, hb, if_true, FuseW.extend, he, if_false]
-  refine ⟨rfl, rfl, ?_, rfl, fun x => length_get_write _ _ _ _ hw x, ?_⟩
+  refine ⟨by trivial, by trivial, ?_, by trivial, fun x => length_get_write _ _ _ _ hw x, ?_⟩
   · -- content
     simp only [FuseW.slice]
     have hlen := length_get_write w.mem f.region (f.base + f.len) data hw f.region
@@ -84,19 +84,74 @@ theorem fwrite_buffered (f : FuseW) (w : World) (data : Bytes) (hb : f.buffered 
       intro a ha; rw [mem_segAddrs] at ha; rw [ha.1, hlen]; simp only at ha; omega
     rw [readSeg_eq_map _ _ i2, segAddrs_split, List.map_append, map_byteAt_written _ _ _ _ hw]
     congr 1
-    symm
+    have i3 : InMem (w.mem.write f.region (f.base + f.len) data)
+        (segAddrs { region := f.region, off := f.base, len := f.len }) := by
+      intro a ha; rw [mem_segAddrs] at ha; rw [ha.1, hlen]; simp only at ha; omega
+    rw [← readSeg_eq_map _ _ i3]
     apply readSeg_ext
     · simp only; omega
     · simp only; rw [hlen]; omega
     · intro j hj
       simp only at hj
       rw [byteAt_write _ _ _ _ hw]
-      have : ¬ (((f.region, f.base + j) : Addr).1 = f.region ∧ f.base + f.len ≤ ((f.region, f.base + j) : Addr).2
-          ∧ ((f.region, f.base + j) : Addr).2 < f.base + f.len + data.length) := by
-        simp only; omega
+      have : ¬ (True ∧ f.base + f.len ≤ f.base + j ∧ f.base + j < f.base + f.len + data.length) := by omega
       simp only [this, if_false]
   · intro a ha
     rw [byteAt_write _ _ _ _ hw]
     simp only [ha, if_false]
+
+theorem fsplit_region (f a o : FuseW) (k : Nat) (h : f.splitAt k = .ok (a, o)) :
+    a.region = f.region ∧ o.region = f.region := by
+  unfold FuseW.splitAt at h
+  by_cases hk : f.cap < k
+  · simp [hk] at h
+  · simp only [hk, if_false] at h
+    split at h <;> (simp only [Except.ok.injEq, Prod.mk.injEq] at h; obtain ⟨rfl, rfl⟩ := h; exact ⟨rfl, rfl⟩)
+
+theorem slice_len_zero (f : FuseW) (m : Mem) (h : f.len = 0) : f.slice m = [] := by
+  simp [FuseW.slice, readSeg, h]
+
+/-- a fresh writer split at `k`; data written to the second part, then the header to the first;
+    `commit` sends exactly one record `header ++ data` -/
+theorem fuse_split_commit (f a o : FuseW) (w : World) (k : Nat) (hdr data : Bytes)
+    (hnew : f.len = 0) (hin : f.inMem w.mem) (hs : f.splitAt k = .ok (a, o))
+    (hh : hdr.length ≤ k) (hd : data.length ≤ f.cap - k) :
+    (FuseW.write o w data).res = .ok data.length
+    ∧ (FuseW.write a (FuseW.write o w data).w hdr).res = .ok hdr.length
+    ∧ (FuseW.commit (FuseW.write a (FuseW.write o w data).w hdr).f (FuseW.write a (FuseW.write o w data).w hdr).w
+          (some (FuseW.write o w data).f)).1 = .ok (hdr ++ data).length
+    ∧ (FuseW.commit (FuseW.write a (FuseW.write o w data).w hdr).f (FuseW.write a (FuseW.write o w data).w hdr).w
+          (some (FuseW.write o w data).f)).2.fd = (if (hdr ++ data).isEmpty then w.fd else w.fd ++ [hdr ++ data]) := by
+  have hfok : f.ok := by unfold FuseW.ok; omega
+  obtain ⟨aok, ook, hcap, hab, hob, hlen, habuf, hobuf, hk, hak⟩ := fsplit_ok f a o k hfok hs
+  obtain ⟨har, hor⟩ := fsplit_region f a o k hs
+  unfold FuseW.inMem at hin
+  have hal : a.len = 0 := by omega
+  have hol : o.len = 0 := by omega
+  have hoin : o.inMem w.mem := by unfold FuseW.inMem; rw [hor, hob]; omega
+  obtain ⟨r1, f1, s1, d1, l1, fr1⟩ := fwrite_buffered o w data hobuf ook (by omega) hoin
+  have hain : a.inMem (FuseW.write o w data).w.mem := by unfold FuseW.inMem; rw [l1, har, hab]; omega
+  obtain ⟨r2, f2, s2, d2, l2, fr2⟩ := fwrite_buffered a (FuseW.write o w data).w hdr habuf aok (by omega) hain
+  have hb2 : (FuseW.write a (FuseW.write o w data).w hdr).f.buffered = true := by rw [f2]; exact habuf
+  obtain ⟨r, hr, c1, c2, _⟩ := fcommit_spec (FuseW.write a (FuseW.write o w data).w hdr).f
+    (FuseW.write a (FuseW.write o w data).w hdr).w (some (FuseW.write o w data).f) hb2
+  simp only at hr
+  -- the data part is untouched by the header write
+  have hkeep : (FuseW.write o w data).f.slice (FuseW.write a (FuseW.write o w data).w hdr).w.mem
+      = (FuseW.write o w data).f.slice (FuseW.write o w data).w.mem := by
+    simp only [FuseW.slice]
+    rw [f1]
+    apply readSeg_ext
+    · simp only; rw [l1, hor, hob]; omega
+    · simp only; rw [l2, l1, hor, hob]; omega
+    · intro j hj
+      simp only at hj ⊢
+      apply fr2
+      simp only [har, hor, hab, hob, hal]
+      omega
+  rw [s2, slice_len_zero a _ hal, hkeep, s1, slice_len_zero o _ hol, List.nil_append, List.nil_append] at hr
+  subst hr
+  refine ⟨r1, r2, c1, ?_⟩
+  rw [c2, d2, d1]
 
 end Fbr.Xport
